@@ -111,7 +111,8 @@ def generate(rng, tier, idx):
         ignores.append(rng.choice(['l', 'a/l', 'l00']))      # look-alike prefixes
     ops = []
     for _ in range(rng.choice([1, 2, 3])):
-        ops.append({'op': rng.choice(['verify', 'verify', 'verify-kg', 'update', 'create', 'unregistered', 'cli-verify', 'cli-update']),
+        ops.append({'op': rng.choice(['verify', 'verify', 'verify-kg', 'update', 'create', 'unregistered', 'cli-verify', 'cli-update',
+                                      'cli-verify-2', 'cli-update-2']),
                     'xdev': rng.random() < 0.6})
     # the Manifest still records a FILE at the path where the other filesystem is now linked in (a recorded file
     # later replaced by a link to a directory elsewhere); used for one-file-system verification only
@@ -220,7 +221,7 @@ def execute(sc):
                 # (where an unlisted file would simply be stray)
                 if os.path.isdir(os.path.join(root, ud)):
                     up = os.path.join(root, ud, 'Manifest')
-                    if kind in ('update', 'cli-update', 'create', 'unregistered'):
+                    if kind in ('update', 'cli-update', 'cli-update-2', 'create', 'unregistered'):
                         with _o['open'](up, 'w') as f:
                             pass
                     elif os.path.lexists(up):
@@ -230,7 +231,7 @@ def execute(sc):
                     _o['os.unlink'](top)
             else:
                 mt_ = manifest_text
-                if sc.get('file_entry_for_ext') and kind in ('verify', 'verify-kg', 'cli-verify') and not xdev:
+                if sc.get('file_entry_for_ext') and kind in ('verify', 'verify-kg', 'cli-verify', 'cli-verify-2') and not xdev:
                     extl = sorted(v_ for v_ in g['dirs'] if os.path.islink(os.path.join(root, v_))
                                   and os.readlink(os.path.join(root, v_)).endswith('mnt1') and not v_.split('/')[-1].startswith('.'))
                     if extl:
@@ -238,7 +239,7 @@ def execute(sc):
                         counters['file_entry_at_foreign_directory'] = counters.get('file_entry_at_foreign_directory', 0) + 1
                 with _o['open'](top, 'w', encoding='utf8') as f:
                     f.write(mt_)
-            walks = {'verify': 1, 'verify-kg': 1, 'cli-verify': 1, 'unregistered': 1}.get(kind, 3)
+            walks = {'verify': 1, 'verify-kg': 1, 'cli-verify': 1, 'cli-verify-2': 2, 'unregistered': 1}.get(kind, 4)
             cap = 150 + 14 * walks * (g['visits'] + 2)
             kw = {} if xdev else {'allow_xdev': False}
             with seam:
@@ -264,6 +265,23 @@ def execute(sc):
                 elif kind == 'unregistered':
                     want_unreg = sorted(ud + '/Manifest' for ud in sc.get('unreg', []) if ud in g['dirs'])
                     r = call(lambda: sorted(ManifestRecursiveLoader(top, **kw).load_unregistered_manifests('')) == want_unreg)
+                elif kind in ('cli-verify-2', 'cli-update-2'):
+                    # several paths on one command line: a small clean tree first, the tree under test second
+                    # (per-path handling must not lose the options after the first path)
+                    t0 = os.path.join(base, '.tree0')     # a dot-directory: invisible to walks that reach the world base through a '..' link
+                    seam._inside += 1
+                    try:
+                        os.makedirs(t0, exist_ok=True)
+                        with _o['open'](os.path.join(t0, 'f'), 'w') as f:
+                            f.write('clean')
+                        with _o['open'](os.path.join(t0, 'Manifest'), 'w') as f:
+                            f.write(G.dump([{'tag': 'DATA', 'path': 'f', 'size': 5, 'sums': G.digests(b'clean', ['SHA256'])}]))
+                    finally:
+                        seam._inside -= 1
+                    if kind == 'cli-verify-2':
+                        r = cli_as_call(run_cli(['verify'] + ([] if xdev else ['-x']) + [t0, root]))
+                    else:
+                        r = cli_as_call(run_cli(['update', '-H', 'SHA256'] + ([] if xdev else ['-x']) + [t0, root]))
                 elif kind == 'cli-verify':
                     r = cli_as_call(run_cli(['verify'] + ([] if xdev else ['-x']) + [root]))
                 else:
@@ -287,7 +305,7 @@ def execute(sc):
             if g['file_loops'] and r[0] == 'OS' and r[1] == 'ELOOP':
                 zones['file-symlink-loop-oserror'] = zones.get('file-symlink-loop-oserror', 0) + 1
                 continue
-            if g['file_loops'] and kind in ('update', 'create', 'cli-update') and r[0] == 'GE' and not is_loop and not is_xdev:
+            if g['file_loops'] and kind in ('update', 'create', 'cli-update', 'cli-update-2') and r[0] == 'GE' and not is_loop and not is_xdev:
                 zones['file-symlink-loop-invalid-path'] = zones.get('file-symlink-loop-invalid-path', 0) + 1
                 continue
             if has_loop or expect_xdev:
@@ -311,7 +329,7 @@ def execute(sc):
                 violations.append(viol('walk.followed-links-wrong', '%s: loop-free graph with consistent Manifest, gemato %s' % (what, describe(r)),
                                        sig='%s:%s' % (kind, r[0])))
                 continue
-            if kind in ('create', 'update', 'cli-update'):
+            if kind in ('create', 'update', 'cli-update', 'cli-update-2'):
                 # files behind followed links are recorded like any others
                 with _o['open'](top, 'r', encoding='utf8') as f:
                     got = G.parse(f.read())
